@@ -424,3 +424,48 @@ func starDiamondGraphs() []ggraph {
 	}
 	return out
 }
+
+// throwGraphs: modules whose evaluation throws, loaded more than once ("the same errors are thrown"): an ES module that
+// throws half-way is imported dynamically twice, directly and through a module that imports it statically; natively
+// every later load fails again with the very same error object and no body runs twice. Variants: which load comes
+// first, an entry whose static dependency throws (the whole program fails), and a CommonJS entry that loads the
+// ES modules with import().
+func throwGraphs() []ggraph {
+	bad := "$(\"bad\", \"start\");\nexport let v = 1;\nfailNow();\nexport let w = 2;\n$(\"bad\", \"unreachable\");\nfunction failNow() { $(\"bad\", \"throwing\", v); throw new Error(\"@bad-init\"); }\n"
+	user := "import {v} from \"./bad.mjs\";\n$(\"user\", \"start\", v);\nexport const u = 1;\n"
+	ok := "$(\"ok\", \"start\");\nexport const k = 1;\n"
+	loader := "var first;\nfunction load(tag, f) { return f().then(function (ns) { $(\"entry\", tag, \"ok\", Object.keys(ns).sort()); }, function (e) { $(\"entry\", tag, \"rejected\", e, first === undefined ? (first = e, \"first\") : e === first); }); }\n"
+	orders := [][]string{
+		{"bad", "bad", "user", "user", "ok"},
+		{"user", "bad", "user", "ok", "bad"},
+		{"ok", "user", "user", "bad"},
+		{"bad", "ok", "bad", "user"},
+	}
+	var out []ggraph
+	for oi, ord := range orders {
+		for _, entryKind := range []string{"esm", "cjs"} {
+			var e strings.Builder
+			e.WriteString("$(\"entry\", \"start\");\n" + loader + "var p = Promise.resolve();\n")
+			for k, m := range ord {
+				e.WriteString(fmt.Sprintf("p = p.then(function () { return load(\"%s-%d\", function () { return import(\"./%s.mjs\"); }); });\n", m, k, m))
+			}
+			e.WriteString("p.then(function () { $(\"chain-done\"); });\n")
+			files := map[string]string{"/bad.mjs": bad, "/user.mjs": user, "/ok.mjs": ok}
+			entry := "/entry.mjs"
+			if entryKind == "cjs" {
+				entry = "/entry.cjs"
+				e.WriteString("exports.done = 1;\n")
+			} else {
+				e.WriteString("export const done = 1;\n")
+			}
+			files[entry] = e.String()
+			out = append(out, ggraph{Files: files, Entry: entry, EntryKind: entryKind, WaitFor: "\"chain-done\"", Kinds: map[string]string{"entry": entryKind, "bad": "esm"},
+				Desc: []string{fmt.Sprintf("throwing-module order=%d entry=%s", oi, entryKind)}})
+		}
+	}
+	// the entry's own static dependency throws: the program as a whole fails after the modules before it have run
+	out = append(out, ggraph{Files: map[string]string{"/bad.mjs": bad, "/ok.mjs": ok, "/after.mjs": "$(\"after\", \"start\");\n",
+		"/entry.mjs": "import \"./ok.mjs\";\nimport {v} from \"./bad.mjs\";\nimport \"./after.mjs\";\n$(\"entry\", \"start\", v);\nexport const done = 1;\n"},
+		Entry: "/entry.mjs", EntryKind: "esm", Kinds: map[string]string{"entry": "esm"}, Desc: []string{"throwing-module static-dependency-of-entry"}})
+	return out
+}
